@@ -9,9 +9,12 @@ package c09
 
 import (
 	"context"
+	"encoding/json"
 	"errors"
 	"fmt"
 	"os"
+	"os/exec"
+	"path/filepath"
 	"sort"
 	"strings"
 	"time"
@@ -36,7 +39,7 @@ func init() {
 		Level: "model_checking",
 		Rule: "closed drivers over the real code, built from /repo's working tree with sync, sync/atomic, `go`, select, <-ch and close rewritten to a controlled scheduler (one thread runs at a time; every Mutex/RWMutex/Pool/atomic/channel/spawn operation is a scheduling point, pool Get is a choice recycled|new). " +
 			"Scenarios: root (VM.Run of a spinning or terminating script || 1-2 Abort calls), reuse (two Runs on one VM || Abort), child (script inside a Go callback that runs script functions through Invoker, pooled or not, once or twice, spinning or terminating || Abort), " +
-			"eval (Eval.Run incl. compilation, goroutine start and both selects || cancellation of the context; one or two evaluations), clear (Abort || Clear/second Run), stdlib (the real time.Sleep builtin on root and child VM with its sleeps turned into yields, the real strings.Map). " +
+			"eval (Eval.Run incl. compilation, goroutine start and both selects || cancellation of the context; one or two evaluations), clear (Abort || Clear/second Run), cmd-ugo (executeScript of the ugo command, driven from a harness injected into its package main), stdlib (the real time.Sleep builtin on root and child VM with its sleeps turned into yields, the real strings.Map). " +
 			"For each scenario ALL schedules with at most B preemptions (quick 2, thorough 4) are executed by stateless depth-first search; fair yield after 12 consecutive polls; an execution is cut 60 polls after the last Abort/cancel returned. " +
 			"Oracle per execution: no deadlock, no panic; once an Abort whose flag store follows the reset of the Run in progress has returned, Run returns VMAbortedError within 60 polls (also while a child VM spins); a Run reports VMAbortedError only if an Abort was called after its reset; a Run with no such Abort returns its normal value; " +
 			"Eval.Run returns within 60 polls after cancellation, with a non-nil error if the script cannot end by itself or the context was cancelled before the call; a later evaluation with a live context returns its normal value. " +
@@ -447,6 +450,88 @@ func scenarios(thorough bool) []*scenario {
 	return out
 }
 
+// ---- cmd/ugo ----------------------------------------------------------------------------
+
+// cmdUgo runs bin/vsched-cmd: package main of github.com/ozanh/ugo/cmd/ugo built with the scheduler overlay, its
+// main() replaced by a harness (shim/cmdharness) that explores executeScript - "run a script under a context" as the
+// ugo command does it - against a cancelling thread and prints one JSON line per scenario.
+func cmdUgo(c *fw.Ctx, bound int) {
+	exe, err := os.Executable()
+	if err != nil {
+		c.Infra("cmd-ugo: %v", err)
+		return
+	}
+	bin := filepath.Join(filepath.Dir(exe), "vsched-cmd")
+	cmd := exec.Command(bin, fmt.Sprint(bound))
+	cmd.Env = append(os.Environ(), "GOMAXPROCS=1")
+	var so, se strings.Builder
+	cmd.Stdout, cmd.Stderr = &so, &se
+	if err := cmd.Run(); err != nil {
+		c.Violation("cmd/ugo executeScript | crash", fmt.Sprintf("the exploration of executeScript ends abnormally: %v: %s", err, tailStr(se.String(), 1500)), nil)
+		return
+	}
+	type viol struct {
+		Class   string `json:"class"`
+		What    string `json:"what"`
+		Count   int64  `json:"count"`
+		Preempt int    `json:"preemptions"`
+		Choices []int  `json:"choices"`
+		Trace   string `json:"trace"`
+	}
+	type line struct {
+		Scenario    string  `json:"scenario"`
+		Schedules   int64   `json:"schedules"`
+		Transitions int64   `json:"transitions"`
+		States      int64   `json:"states"`
+		Cut         int64   `json:"cut"`
+		Inside      int64   `json:"cancel_inside_run"`
+		Violations  []*viol `json:"violations"`
+		Infra       string  `json:"infra"`
+		Default     string  `json:"default_schedule_trace"`
+	}
+	n := 0
+	for _, l := range strings.Split(so.String(), "\n") {
+		if strings.TrimSpace(l) == "" {
+			continue
+		}
+		var d line
+		if err := json.Unmarshal([]byte(l), &d); err != nil {
+			c.Infra("cmd-ugo: unreadable line %q", tailStr(l, 200))
+			continue
+		}
+		n++
+		if d.Infra != "" {
+			c.Infra("%s: %s", d.Scenario, d.Infra)
+			continue
+		}
+		c.AddEval(d.Schedules)
+		c.AddTraces(d.Schedules)
+		c.AddTransitions(d.Transitions)
+		c.AddStates(d.States)
+		c.Count("schedules", d.Schedules)
+		c.Count("executions_with_abort_inside_run", d.Inside)
+		c.Sample(map[string]any{"scenario": d.Scenario, "driver": "T1 executeScript(ctx, script) of cmd/ugo || T2 cancel(ctx)", "schedules": d.Schedules, "preemption_bound": bound, "default_schedule_trace": d.Default})
+		if len(d.Violations) == 0 {
+			c.Outcome("executeScript returns")
+		}
+		for _, v := range d.Violations {
+			c.Outcome("VIOLATING: " + v.Class)
+			c.Violation(d.Scenario+" | "+v.Class, v.What, map[string]any{"scenario": d.Scenario, "failing_schedules": v.Count, "of_schedules": d.Schedules,
+				"preemptions_of_shown_schedule": v.Preempt, "choices": v.Choices, "trace": v.Trace, "replay": fmt.Sprintf("./bin/vsched-cmd %d", bound)})
+		}
+	}
+	if n == 0 {
+		c.Infra("cmd-ugo: the harness printed nothing: %s", tailStr(se.String(), 500))
+	}
+}
+
+func tailStr(s string, n int) string {
+	if len(s) > n {
+		return "..." + s[len(s)-n:]
+	}
+	return s
+}
+
 // ---- analysis of one execution ------------------------------------------------------
 
 type runRec struct {
@@ -690,6 +775,16 @@ func run09(c *fw.Ctx) {
 			}
 			explore(c, s, cfg, bound)
 		}
+	}
+	cb := bound
+	if cb > 3 {
+		cb = 3
+	}
+	c.Family("cmd-ugo", fmt.Sprintf("executeScript of cmd/ugo (package main, built with the scheduler overlay) x 4 scripts || cancel: all schedules with <= %d preemptions", cb))
+	if c.Next() && !c.Skip("cmd/ugo executeScript") {
+		c.Mark("cmd/ugo executeScript")
+		c.Nontrivial()
+		cmdUgo(c, cb)
 	}
 }
 
